@@ -348,6 +348,11 @@ class Executor(Engine):
                         may += list(self.ev(cnode.args[0], env, pre).names)
                         if any(kw.arg == "unchanged" and ast.literal_eval(kw.value) for kw in cnode.keywords):
                             may_unch += list(self.ev(cnode.args[0], env, pre).names)
+                    elif f == "raises" and any(kw.arg == "native" for kw in cnode.keywords):
+                        # exact condition decided natively only (e.g. by simulation): the prover sees "may raise"
+                        may += list(self.ev(cnode.args[0], env, pre).names)
+                        if any(kw.arg == "unchanged" and ast.literal_eval(kw.value) for kw in cnode.keywords):
+                            may_unch += list(self.ev(cnode.args[0], env, pre).names)
                     elif f == "raises":
                         names = self.ev(cnode.args[0], env, pre).names
                         when = TRUE
@@ -378,27 +383,13 @@ class Executor(Engine):
                 "may_raise": may, "raises_unchanged": rai_unch, "may_unchanged": may_unch}
 
     def ev_post(self, node, env, post, pre, marker="old", pre_env=None):
-        """Evaluate a postcondition: old(e) sub-expressions are evaluated in the pre-state."""
-        outer = self
-
-        class OldRewriter(ast.NodeTransformer):
-            def __init__(inner):
-                inner.olds = {}
-
-            def visit_Call(inner, n):
-                if isinstance(n.func, ast.Name) and n.func.id == marker and len(n.args) == 1:
-                    name = f"__old{len(inner.olds)}"
-                    inner.olds[name] = n.args[0]
-                    return ast.copy_location(ast.Name(id=name, ctx=ast.Load()), n)
-                inner.generic_visit(n)
-                return n
-        import copy
-        rw = OldRewriter()
-        new = rw.visit(copy.deepcopy(node))
-        env2 = dict(env)
-        for name, e in rw.olds.items():
-            env2[name] = self.ev(e, pre_env if pre_env is not None else env, pre)
-        return self.ev(new, env2, post)
+        """Evaluate a postcondition / invariant: <marker>(e) sub-expressions are evaluated in the pre-state `pre`
+        (lazily, where they occur, so they may mention variables bound by enclosing quantifiers)."""
+        self.old_stack.append((marker, pre, pre_env))
+        try:
+            return self.ev(node, env, post)
+        finally:
+            self.old_stack.pop()
 
     def result_type(self, q):
         opts = self.copts.get(q, {})
@@ -645,7 +636,9 @@ class Executor(Engine):
                 i = c.bvar("i", "Int")
                 fact = ForAll([i], Implies(And(Le(Int(0), i), Lt(i, recs.n)), Not(Eq(recs.at(i).t, r.t))), pats=[[recs.at(i).t]])
                 c.oblige(f"{where}:lemma: fresh record is not in {name}.records", "lemma", st.pc, fact, where)
+                fact.conj = None
                 st = st.assume(fact)
+                st.pc[-1].conj = "cut"
         return st
 
     def cut_frame_for_converters(self, before, after, where):
@@ -664,6 +657,7 @@ class Executor(Engine):
                                   pats=[[Select(a1, recs.at(i).t)]])
                     c.oblige(f"{where}:lemma: {f} of {name}.records unchanged by initialising the fresh record", "lemma", after.pc, fact, where)
                     after = after.assume(fact)
+                    after.pc[-1].conj = "cut"
         return after
 
     def set_as_list(self, sv):
@@ -1096,7 +1090,37 @@ class Executor(Engine):
                     if f2 == f:
                         arr = s2.harr(c, cls, f2)
                         s2.heap[(cls, f2)] = c.const(f"H_{cls}_{f2}", arr.sort)
-        # calls to non-pure contracted functions inside the loop body: havoc everything they may modify
+        return s2
+
+    def body_touches_heap(self, stmts):
+        """The loop body allocates or calls a contracted function that is not pure()."""
+        for n in ast.walk(ast.Module(body=list(stmts), type_ignores=[])):
+            if isinstance(n, ast.Call):
+                q = self.resolve_call(n, None)
+                if q is None:
+                    continue
+                if q.startswith("ctor.") or q == "lib.model_copy":
+                    return True
+                if q in self.contracts:
+                    cn = self.contracts[q]
+                    pure = any(isinstance(s_, ast.Expr) and isinstance(s_.value, ast.Call) and isinstance(s_.value.func, ast.Name)
+                               and s_.value.func.id == "pure" for s_ in cn.body)
+                    if not pure:
+                        return True
+        return False
+
+    def havoc_heap(self, st):
+        c = self.ctx
+        s2 = st.copy()
+        for cls, f in FIELDS_KEYS():
+            arr = st.harr(c, cls, f)
+            s2.heap[(cls, f)] = c.const(f"HL_{cls}_{f}", arr.sort)
+        for cls in ("Record", "Converter"):
+            a0 = st.alloc_arr(c, cls)
+            a1 = c.const(f"AL_{cls}", a0.sort)
+            x = c.bvar("x", REF_SORT[cls])
+            s2.heap[("alloc", cls)] = a1
+            s2 = s2.assume(ForAll([x], Implies(Select(a0, x), Select(a1, x))))
         return s2
 
     def invariant(self, key, env, st, extra):
@@ -1218,7 +1242,10 @@ class Executor(Engine):
             c.oblige(f"{w}:loop{key[1]}:invariant holds on entry", "invariant-init", s0.pc,
                      self.invariant(key, s0.env, s0, {"_i": VInt(Int(0)), "_xs": xs}), w)
             # arbitrary iteration
+            heap_all = self.body_touches_heap(s.body)
             h = self.havoc(s0, names, heap_fields)
+            if heap_all:
+                h = self.havoc_heap(h)
             i = c.const("it", "Int")
             h = h.assume(And(Le(Int(0), i), Lt(i, xs.n)))
             h = h.assume(self.invariant(key, h.env, h, {"_i": VInt(i), "_xs": xs}))
@@ -1238,6 +1265,8 @@ class Executor(Engine):
                     outs.append((s1, o))
             # exit
             e = self.havoc(s0, names, heap_fields)
+            if heap_all:
+                e = self.havoc_heap(e)
             e = e.assume(self.invariant(key, e.env, e, {"_i": VInt(xs.n), "_xs": xs}))
             outs.append((e, Outcome("normal")))
         return outs
